@@ -95,12 +95,13 @@ FAMILIES = {
             "a": M(x=P("1"), r1=R("b")),
             "b": C(P('"q"'), R("c"), S("a"), D('{"k":1}')),
             "c": M(z=P("1")),
-            "d": M(w=P("0")),
+            "d": M(w=P("0"), r=R("e")),
+            "e": M(v=P("1")),
         }),
         consts=dict(
             Conns=TSet(["c1", "c2"]), Vers=TSet(["latest", "1.2.0", "1.1.1"]),
             Rids=TSet(["a", "b", "c"]), CallRids=TSet(["a"]), ResRids=TSet(["c"]),
-            Names=TSet(["a", "b", "c"]), Keys=TSet(["x", "r1", "y"]),
+            Names=TSet(["a", "b", "c", "d"]), Keys=TSet(["x", "r1", "y"]),
             Vals=TSet([P("1"), P("2"), P('"s"'), R("c"), R("d"), S("c"), D('{"k":2}'), X]),
             AccessOuts=TSet(["ok"]), GetOuts=TSet(["ok"]),
             CallOuts=TSet(["ok"]), QueryOuts=TSet(["full"]),
